@@ -179,7 +179,7 @@ def _pair(inp, recvbuf, sendbuf=8192):
     pa, pb = FakePoller(), FakePoller()
     # a small configured send buffer: what is pending in user space may exceed any multiple of it (a big entry is written in one go)
     ca = tc.TcpConnection(pa, socket=a, keepalive=None, recvBufferSize=recvbuf, sendBufferSize=sendbuf)
-    cb = tc.TcpConnection(pb, onMessageReceived=got.append, onDisconnected=lambda: disc.append(1), socket=b, keepalive=None, recvBufferSize=recvbuf)
+    cb = tc.TcpConnection(pb, onMessageReceived=got.append, onDisconnected=lambda: disc.append(len(got)), socket=b, keepalive=None, recvBufferSize=recvbuf)
     return a, b, ca, cb, got, disc
 
 
@@ -286,6 +286,8 @@ def T2(inp, k, bad, what):
     cl['frames_before_in_order_once'] = got[:len(good)] == good[:len(got)]
     cl['nothing_after_a_corrupt_frame'] = all(m < bad for m in got)
     cl['disconnect_reported_at_most_once'] = len(disc) <= 1
+    # disc records how many messages had been delivered when onDisconnected fired (S-C13-9: frames decoded first, delivered after the disconnect report)
+    cl['nothing_delivered_after_disconnect_reported'] = all(d == len(got) for d in disc)
     # invalid frame fully received => the connection is closed
     # once every byte has been handed to the receiver: a frame whose (wrong) length is negative, or whose claimed
     # body is fully available, or whose payload does not decode, must have closed the connection; a length that
